@@ -787,12 +787,21 @@ def main(argv):
     quick = not run.thorough()
     ab = G["ab"]
 
-    # ---- Part A: expressions
-    recipes = expression_recipes(quick, T, {}, run, ab)
-    n_expr = part_a(run, recipes, False, "expr")
-    # ---- Part A: integrals and forms
+    # developer switch (self-tests): run only some parts; the verdict of a partial run is not a verdict on C13
+    only = set(filter(None, os.environ.get("C13_ONLY", "").split(","))) or {"expr", "form", "hist"}
+    run.extra["parts_run"] = sorted(only)
+    labels = []
+    n_expr = 0
     ints, frms = form_recipes(quick)
-    n_form = part_a(run, ints + frms, True, "form")
+    # ---- Part A: expressions
+    if "expr" in only:
+        recipes = expression_recipes(quick, T, {}, run, ab)
+        n_expr = part_a(run, recipes, False, "expr")
+        labels.append("expr")
+    # ---- Part A: integrals and forms
+    if "form" in only:
+        part_a(run, ints + frms, True, "form")
+        labels.append("form")
     run.bounds.update(
         expressions=n_expr,
         integrals=len(ints),
@@ -812,13 +821,12 @@ def main(argv):
     # ---- foreign pickles of both universes (one foreign interpreter) + Part B: histories, in one parallel pass
     tick("foreign interpreter")
     items = []
-    labels = ["expr", "form"]
     allr, allu = [], []
     for label in labels:
         u = G["U"][label]
         allr += u["recipes"]
         allu += u["usable"]
-    blobs = foreign_blobs(allr, allu)
+    blobs = foreign_blobs(allr, allu) if allr else []
     off = 0
     for label in labels:
         u = G["U"][label]
@@ -828,7 +836,8 @@ def main(argv):
         idx = [i for i in range(u["N"]) if u["usable"][i]]
         items += [("xp", label, i) for i in idx]
     tick("histories + foreign pickles")
-    items += [("hist",) + it for it in H.history_items(run, quick)]
+    if "hist" in only:
+        items += [("hist",) + it for it in H.history_items(run, quick)]
     for d in pmap(b_worker, items, seed=run.seed, chunks_per_proc=8):
         for part in d["parts"]:
             run.merge(part)
